@@ -14,10 +14,12 @@ from .sym import (Sym, SInt, SReal, SBool, SSeq, CList, CDict, SRange, SOpt, SOb
 from .interp import Interp, PathEnd, PyRaise, Env, Poison, _named, exc_matches, _Return
 from . import specs as S
 
-Z3_QUICK_MS = 400        # feasibility checks while exploring
+Z3_QUICK_MS = 3000       # wall-clock safety net for feasibility checks (the deterministic limit below normally ends them)
+Z3_QUICK_RL = int(os.environ.get("PYVC_QUICK_RL", "600000"))
+Z3_OBL_RL = int(os.environ.get("PYVC_OBL_RL", "40000000"))    # z3 resource limit per obligation (deterministic)   # z3 resource limit for feasibility checks: deterministic across runs / loads
 Z3_OBL_MS = 5000         # incremental check of an obligation
 CVC5_MS = 15000          # cvc5 second opinion
-Z3_ONESHOT_MS = 20000    # fresh-solver retry
+Z3_ONESHOT_MS = 60000    # wall-clock safety net per obligation (the resource limit normally ends the query first)
 
 
 class Obligation:
@@ -55,8 +57,10 @@ class PathCtx:
         self.ndec = 0
         self.solver = z3.Solver()
         self.solver.set("timeout", Z3_QUICK_MS)
+        self.solver.set("rlimit", Z3_QUICK_RL)
         self.qf = z3.Solver()           # quantifier-free part of the path condition (cheap pre-filter)
         self.qf.set("timeout", Z3_QUICK_MS)
+        self.qf.set("rlimit", Z3_QUICK_RL)
         self.pc = []
         self.shape_mode = run.shape_mode
         self.fuel = run.fuel
@@ -70,9 +74,19 @@ class PathCtx:
         self.summary = []
         for ax in run.lib_axioms:
             self._add(ax)
+        for ax in getattr(run, "lib_axioms_extra", []):
+            self._add(ax)
 
     # ---- path condition
+    def _drain(self):
+        from . import sym as _sym
+        while _sym.PENDING:
+            ax = _sym.PENDING.pop(0)
+            self.pc.append(ax)
+            self.solver.add(ax)
+
     def _add(self, t):
+        self._drain()
         self.pc.append(t)
         self.solver.add(t)
         if not _has_quantifier([t]):
@@ -252,6 +266,7 @@ class PathCtx:
         ob = self.run.obligation(kind, name, line)
         ob.paths += 1
         self.cur_oid = ob.oid
+        self._drain()
         if f is True:
             return
         t0 = time.time()
@@ -439,6 +454,11 @@ class Run:
         from .sym import ABSTRACT_REAL
         ABSTRACT_NL[0] = (not shape_mode) and getattr(C, "abstract_nl", True)
         ABSTRACT_REAL[0] = (not shape_mode) and getattr(C, "abstract_real", False)
+        if getattr(C, "sum_axioms", False) and not shape_mode:
+            from .lib import SUM_AXIOMS, SUM_EXT
+            self.lib_axioms_extra = list(SUM_AXIOMS) + [SUM_EXT]
+        else:
+            self.lib_axioms_extra = []
         from .sym import comm_axioms
         self.lib_axioms = list(FLOAT_AXIOMS) + (div_axioms() + mul_axioms() + comm_axioms(ABSTRACT_REAL[0]) if ABSTRACT_NL[0] else [])
 
@@ -453,55 +473,72 @@ class Run:
         return ",".join("%s=%s" % kv for kv in sorted(self.case.items())) if self.case else "-"
 
     def prove(self, ctx, t):
-        """pc => t ?   returns (verdict, backend, detail)"""
+        """pc => t ?   returns (verdict, backend, detail).
+
+        Every obligation is decided in a FRESH solver under a deterministic resource limit (z3 rlimit), so that the verdict
+        does not depend on machine load or on what the incremental exploration solver has seen before; cvc5 (own process)
+        gives a second opinion on `unknown`."""
         t0 = time.time()
-        s = ctx.solver
-        s.push()
-        s.set("timeout", Z3_OBL_MS)
-        s.add(z3.Not(t))
-        r = s.check()
-        s.pop()
-        s.set("timeout", Z3_QUICK_MS)
-        self.solver_s += time.time() - t0
-        if r == z3.unsat:
-            return "proved", "z3-inc", None
-        if r == z3.sat and self.shape_mode and not _has_quantifier(ctx.pc + [t]):
+        if self.shape_mode:
+            s = ctx.solver
             s.push()
+            s.set("timeout", Z3_OBL_MS)
+            s.set("rlimit", 0)
             s.add(z3.Not(t))
-            if s.check() == z3.sat and self.on_refuted is not None:
+            r = s.check()
+            if r == z3.sat and not _has_quantifier(ctx.pc + [t]) and self.on_refuted is not None:
                 self.on_refuted(ctx, s.model(), self.cur_args, ctx.cur_oid)
             s.pop()
-            return "refuted", "z3-inc", None
-        # second opinion: cvc5 on the SMT-LIB text of the same query
+            s.set("timeout", Z3_QUICK_MS)
+            s.set("rlimit", Z3_QUICK_RL)
+            self.solver_s += time.time() - t0
+            if r == z3.unsat:
+                return "proved", "z3-inc", None
+            if r == z3.sat and not _has_quantifier(ctx.pc + [t]):
+                return "refuted", "z3-inc", None
+            return "unknown", "z3-inc", {"z3": str(r)}
+        def z3_fresh(rl):
+            s2 = z3.Solver()
+            s2.set("rlimit", rl)
+            s2.set("timeout", Z3_ONESHOT_MS)
+            for p in ctx.pc:
+                s2.add(p)
+            s2.add(z3.Not(t))
+            return s2, s2.check()
+        # 1. z3, small deterministic budget (most obligations end here in milliseconds)
+        s2, r2 = z3_fresh(Z3_OBL_RL // 8)
+        self.solver_s += time.time() - t0
+        if r2 == z3.unsat:
+            return "proved", "z3", None
+        if r2 == z3.sat and not _has_quantifier(ctx.pc + [t]):
+            return "refuted", "z3", {"z3": "sat"}
+        # 2. cvc5 on the SMT-LIB text of the same query (own process)
         t0 = time.time()
         r3 = _cvc5_check(ctx.pc, t, CVC5_MS)
         self.solver_s += time.time() - t0
         if r3 == "unsat":
             return "proved", "cvc5", None
-        # retry in a fresh solver (different strategy selection)
+        # 3. z3 again with the full budget
         t0 = time.time()
-        s2 = z3.Solver()
-        s2.set("timeout", Z3_ONESHOT_MS)
-        for p in ctx.pc:
-            s2.add(p)
-        s2.add(z3.Not(t))
-        r2 = s2.check()
+        s2, r2 = z3_fresh(Z3_OBL_RL)
         self.solver_s += time.time() - t0
         if r2 == z3.unsat:
-            return "proved", "z3-oneshot", None
-        detail = {"z3": str(r2), "reason": s2.reason_unknown() if r2 == z3.unknown else "model"}
+            return "proved", "z3", None
+        detail = {"z3": str(r2), "reason": s2.reason_unknown() if r2 == z3.unknown else "model", "cvc5": r3}
         if r2 == z3.sat and not _has_quantifier(ctx.pc + [t]):
-            return "refuted", "z3-oneshot", detail
-        return "unknown", "z3-oneshot", detail
+            return "refuted", "z3", detail
+        return "unknown", "z3+cvc5", detail
 
     def class_attr(self, interp, ctx, cls, attr, node):
         return self.C.class_attr(interp, ctx, cls, attr, node)
 
 
 def _cvc5_check(pc, goal, ms):
-    """pc => goal ?  via cvc5 (python API) on the SMT-LIB 2 dump of the query; 'unsat' | 'sat' | 'unknown' | 'error'"""
+    """pc => goal ?  via the cvc5 binary on the SMT-LIB 2 dump of the query (own process: a hard time limit applies);
+    'unsat' | 'sat' | 'unknown' | 'error'"""
+    import subprocess
+    import tempfile
     try:
-        import cvc5
         s = z3.Solver()
         for p in pc:
             s.add(p)
@@ -509,20 +546,18 @@ def _cvc5_check(pc, goal, ms):
         text = "(set-logic ALL)\n" + s.to_smt2()
         if "(lambda" in text:
             return "error"
-        slv = cvc5.Solver()
-        slv.setOption("tlimit", str(ms))
-        parser = cvc5.InputParser(slv)
-        parser.setStringInput(cvc5.InputLanguage.SMT_LIB_2_6, text, "vc")
-        sm = parser.getSymbolManager()
-        out = "unknown"
-        while True:
-            cmd = parser.nextCommand()
-            if cmd.isNull():
-                break
-            res = str(cmd.invoke(slv, sm)).strip()
-            if res in ("unsat", "sat", "unknown"):
-                out = res
-        return out
+        with tempfile.NamedTemporaryFile("w", suffix=".smt2", delete=False) as fh:
+            fh.write(text)
+            path = fh.name
+        try:
+            r = subprocess.run(["/usr/bin/cvc5", "--tlimit=%d" % ms, path], capture_output=True, text=True, timeout=ms / 1000.0 + 5)
+            out = r.stdout.strip().splitlines()
+            res = out[-1].strip() if out else "error"
+            return res if res in ("unsat", "sat", "unknown") else "error"
+        except subprocess.TimeoutExpired:
+            return "unknown"
+        finally:
+            os.unlink(path)
     except Exception:
         return "error"
 
